@@ -711,6 +711,52 @@ def r5_roles(program, rep):
     rep.floor("C07-R5", 30)
 
 
+def r1_buffer(program, rep):
+    """The block size handed to the connection by MachineController.read /
+    write is the size the machine itself advertises (the scp_data_length
+    property, which asks the machine when it is not yet known) - not a
+    cached-or-default guess."""
+    SELF = ("param", "self")
+    for name in ("read", "write"):
+        fn = program.get(MC + ":MachineController." + name)
+        T = Terms(fn)
+        cs = [c for c in ast.walk(fn) if isinstance(c, ast.Call) and
+              isinstance(c.func, ast.Attribute) and c.func.attr == name and
+              chain(c.func.value) not in (None, "self")]
+        cs = [c for c in cs if len(c.args) >= 2]
+        if len(cs) != 1:
+            raise AnalysisError("MachineController.%s: the call of the "
+                                "connection's %s was not found" % (name,
+                                                                    name))
+        n = T.cfg.node_containing(cs[0])
+        size = plain(T.term(cs[0].args[0], n))
+        if size[0] == "call" and size[1][0] == "local" and \
+                size[1][1] in T._nested:
+            # a helper with several returns: every one of them
+            h = T._nested[size[1][1]]
+            outs = set()
+            for view in T.inners(h):
+                for r in ast.walk(h):
+                    if isinstance(r, ast.Return) and r.value is not None:
+                        outs.add(plain(view.term(r.value,
+                                                 view.cfg.node_of(r))))
+            if len(outs) == 1:
+                size = list(outs)[0]
+            elif outs:
+                size = ("phi",) + tuple(sorted(outs, key=repr))
+        rep.check(size == ("attr", SELF, "scp_data_length"), "C07-R1",
+                  qual(fn), "blocks are sized by self.scp_data_length (the "
+                  "buffer size reported by the machine)",
+                  construct="%s block size" % name, node=cs[0],
+                  fail="the block size handed to the connection is %s, not "
+                       "self.scp_data_length: before the machine's buffer "
+                       "size has been discovered, commands longer than the "
+                       "machine accepts are sent" % show(size)[:80])
+
+
+r1_buffer.helper_aware = True
+
+
 def check(program, rep):
     program.module(SCP)
     program.module(MC)
@@ -725,6 +771,7 @@ def check(program, rep):
     c2, b2 = rep.guard("C07-R1", r1_scp_write, program, folder, rep) or (
         None, None)
     rep.guard("C07-R1", r1_links, program, folder, rep)
+    rep.guard("C07-R1", r1_buffer, program, rep)
     rep.guard("C07-R2", r2_dtype, program, folder, rep, [(rfn, c1, b1), (wfn, c2, b2)])
     rep.guard("C07-R3", r3_payload, program, folder, rep)
     rep.guard("C07-R4", r4_addresses, program, folder, rep)
